@@ -277,6 +277,7 @@ class World:
                 "n_beta": len(state["history"].beta),
                 "n_acc": len(state["history"].mcmc_acceptance),
                 "x": np.array(state["samples"].x, dtype=float),
+                "n_ll_points": self.n_points,
                 "precision": precision_of(state["samples"]),
             }
         )
@@ -379,6 +380,17 @@ def precision_of(pop):
         if a is not None:
             out[f] = np.asarray(a).dtype.name
     return out
+
+
+def count_clause(w, bad, tag):
+    allowed = [w.n_points]
+    before = getattr(w, "points_asked_before", None)
+    if before is not None:
+        allowed.append(w.n_points + before)
+    got = w.sampler.n_likelihood_evaluations
+    if got not in allowed:
+        extra = "" if before is None else f" (the interrupted run had been asked for {before}; neither reading gives {got})"
+        bad.append(f"C17{tag}: n_likelihood_evaluations={got}, the likelihood was asked for {w.n_points} points{extra}")
 
 
 def oracle_run(w, props, bad, tag=""):
@@ -510,8 +522,8 @@ def oracle_run(w, props, bad, tag=""):
         for j, ck in enumerate(w.checkpoints):
             if any(v != want for v in ck["precision"].values()):
                 bad.append(f"C15{tag}: checkpoint {j} holds a population that is not in the requested precision {want}: {ck['precision']}")
-    if "C17" in props and smp.n_likelihood_evaluations != w.n_points:
-        bad.append(f"C17{tag}: n_likelihood_evaluations={smp.n_likelihood_evaluations}, the likelihood was asked for {w.n_points} points")
+    if "C17" in props:
+        count_clause(w, bad, tag)
     return info
 
 
@@ -603,10 +615,12 @@ def _replay_resume(cex, model, props, bad, tmp):
             res = World(cex, model, tag=f"r{k}", rng=CRng(model, "other", 77)).build()
             res.kernel_offset = ck["n_acc"]
             res.N_arg = res.N + int(cfg.get("resume_n_samples_delta", 0))
+            res.points_asked_before = ck["n_ll_points"]
             res.run(resume_from=src, checkpoint_callback=res.callback, checkpoint_every=1)
             if route == "dict_twice":
                 res = World(cex, model, tag=f"s{k}", rng=CRng(model, "other", 78)).build()
                 res.kernel_offset = ck["n_acc"]
+                res.points_asked_before = ck["n_ll_points"]
                 res.run(resume_from=src, checkpoint_callback=res.callback, checkpoint_every=1)
             bad += res.bad
             tag = f"[resume@{k}/{route}]"
@@ -617,7 +631,7 @@ def _replay_resume(cex, model, props, bad, tmp):
                     bad.append(f"C06{tag}: the run resumed after {ck['n_acc']} kernel calls moved the population {len(res.kernel_inputs)} more times; the uninterrupted run needs {len(ref.kernel_inputs)}")
             if "C11" in props:
                 compare(ref, res, bad, tag)
-            r = oracle_run(res, props - {"C17"}, bad, tag=tag)
+            r = oracle_run(res, props, bad, tag=tag)
             info["resumed"].append({"checkpoint": k, "iteration": ck["iteration"], "route": route, "betas": r.get("betas")})
     if "file" in routes:
         info["crash"] = _replay_crash(cex, model, props, bad, tmp, ref)
@@ -655,11 +669,15 @@ def _replay_crash(cex, model, props, bad, tmp, ref):
             if blob != last:
                 bad.append(f"C12[crash@{c}]: file payload ({len(blob)} bytes) is not the most recent checkpoint ({len(last)} bytes)")
                 continue
-        if "C11" in props and exists:
+        if ("C11" in props or "C17" in props) and exists:
             res = World(cex, model, tag=f"c{c}", rng=CRng(model, "other", 77)).build()
             res.kernel_offset = len(pickle.loads(last)["history"].mcmc_acceptance)
             res.run(resume_from=path)
-            compare(ref, res, bad, f"[crash@{c}/file]")
+            if "C11" in props:
+                compare(ref, res, bad, f"[crash@{c}/file]")
+            if "C17" in props and res.error is None and res.final is not None:
+                res.points_asked_before = w.n_points
+                count_clause(res, bad, f"[resumed after a fault at likelihood call {c}]")
         out.append(c)
     return out
 
@@ -772,10 +790,25 @@ def _replay_cadence(cex, model, props, bad, tmp):
     info = {}
     for every in cfg.get("every_values", [1, 2, 3]):
         w = World(cex, model).build()
-        w.run(checkpoint_callback=w.callback, checkpoint_every=every)
+        if cfg.get("cadence_via") == "file":
+            orig = w.sampler.default_file_checkpoint_callback
+
+            def factory(path, *a, _orig=orig, _w=w, **k):
+                cb = _orig(path, *a, **k)
+
+                def both(state):
+                    _w.callback(state)
+                    return cb(state)
+
+                return both
+
+            w.sampler.default_file_checkpoint_callback = factory
+            w.run(checkpoint_every=every, checkpoint_file_path=os.path.join(tmp, f"cadence{every}.h5"))
+        else:
+            w.run(checkpoint_callback=w.callback, checkpoint_every=every)
         K = len(w.sampler.history.beta)
         its = [c["iteration"] for c in w.checkpoints]
-        want = [t for t in range(1, K + 1) if t % every == 0] + [K]
+        want = [t for t in range(1, K + 1) if every > 0 and t % every == 0] + [K]
         if its != want and "C12" in props:
             bad.append(f"C12[every={every}]: checkpoints written at iterations {its}, expected {want}")
         if "C12" in props and w.checkpoints and w.final is not None:
@@ -824,8 +857,14 @@ def _replay_rng_inner(cex, model, props, bad, cfg, g, constructed):
 
         kw = schedule_kwargs(cfg["schedule"], w.N)
         kw["sampler_kwargs"] = {"n_steps": 1}
+        from harness.loop_base import record_sampler_arguments
+
+        received = record_sampler_arguments(a)
         with np.errstate(all="ignore"):
             a.sample_posterior(n_samples=w.N, sampler="smc", rng=g, preconditioning="none", **kw)
+        got = [r for r in received if r.get("rng") is not None]
+        if "C20" in props and not (len(got) >= 1 and all(r["rng"] is g for r in got)):
+            bad.append("C20: the generator that reached the sampler is not the user's object (a copy or nothing was handed on): the user's generator is left untouched")
     else:
         w = World(cex, model, rng=g).build().run()
     drawn = [r for r in list(w.rng_constructed) + list(constructed) if r.used > 0]
